@@ -193,8 +193,8 @@ func (m *InterpModel) Call(mc *Machine, st *State, call ssa.CallInstruction, cal
 			e.KV["env"] = args[2].String()
 			e.KV["repl"] = args[3].String()
 			e.KV["childtype"] = typeStr(ctype)
-			e.KV["res"] = "ev" + valName
-			name := "ev" + valName
+			e.KV["res"] = "ev[" + child.String() + "]" + valName
+			name := "ev[" + child.String() + "]" + valName
 			outs = append(outs, Outcome{Result: AV{K: KTuple, T: []AV{Sym(name + ".val"), Sym(name + ".sig")}}, Apply: func(s *State) {
 				s.Facts["v:"+name+".val"] = NilV // the guarded callee returns nil
 				s.Heap[name+".sig.Type"] = IntV(0)
@@ -220,14 +220,14 @@ func (m *InterpModel) Call(mc *Machine, st *State, call ssa.CallInstruction, cal
 				e.KV["env"] = args[2].String()
 				e.KV["repl"] = args[3].String()
 				e.KV["childtype"] = typeStr(ctype)
-				e.KV["res"] = "ev" + valName
+				e.KV["res"] = "ev[" + child.String() + "]" + valName
 				if was {
 					e.KV["dirty"] = "T"
 				}
 				if nowRaised && !was {
 					e.KV["raises"] = "T"
 				}
-				name := "ev" + valName
+				name := "ev[" + child.String() + "]" + valName
 				outs = append(outs, Outcome{Result: AV{K: KTuple, T: []AV{Sym(name + ".val"), Sym(name + ".sig")}}, Apply: func(s *State) {
 					s.Heap[name+".sig.Type"] = IntV(int64(sg))
 					if nowRaised {
